@@ -19,6 +19,7 @@ type c07St struct {
 	kind string // setx sety obs for if call
 	// for
 	v, k string
+	filt int // inline condition: 0 none, 1 rejects the last element, 2 rejects the first, 3 rejects all
 	// if
 	cond bool
 	// call
@@ -46,10 +47,11 @@ func (p *c07Printer) print(sts []*c07St) {
 		case "obs":
 			p.sb.WriteString(c07Obs)
 		case "for":
+			cond := []string{"", " if " + s.v + " < 12", " if " + s.v + " > 11", " if " + s.v + " > 12"}[s.filt]
 			if s.k != "" {
-				p.sb.WriteString("{% for " + s.k + ", " + s.v + " in [11, 12] %}")
+				p.sb.WriteString("{% for " + s.k + ", " + s.v + " in [11, 12]" + cond + " %}")
 			} else {
-				p.sb.WriteString("{% for " + s.v + " in [11, 12] %}")
+				p.sb.WriteString("{% for " + s.v + " in [11, 12]" + cond + " %}")
 			}
 			p.print(s.body)
 			p.sb.WriteString("{% endfor %}")
@@ -142,6 +144,10 @@ func (r *c07Ref) run(sts []*c07St) {
 			litStart := r.lit
 			for i, el := range []string{"11", "12"} {
 				r.lit = litStart // literals are static in the source: each iteration assigns the same ones
+				if (s.filt == 1 && i == 1) || (s.filt == 2 && i == 0) || s.filt == 3 {
+					r.skipLits(s.body) // element rejected by the inline condition: the body does not run
+					continue
+				}
 				sc := map[string]string{s.v: el, "loop": "L"}
 				if s.k != "" {
 					sc[s.k] = itoa(i)
@@ -247,6 +253,9 @@ func c07Compounds(bodies [][]*c07St) []*c07St {
 		for _, f := range forms {
 			res = append(res, &c07St{kind: "for", v: f[0], k: f[1], body: b})
 		}
+		// loops with an inline condition: the last / the first / every element is rejected
+		res = append(res, &c07St{kind: "for", v: "x", filt: 1, body: b}, &c07St{kind: "for", v: "y", k: "x", filt: 1, body: b},
+			&c07St{kind: "for", v: "z", filt: 2, body: b}, &c07St{kind: "for", v: "x", filt: 3, body: b})
 		res = append(res, &c07St{kind: "if", cond: true, body: b}, &c07St{kind: "if", cond: false, body: b})
 	}
 	return res
@@ -403,7 +412,7 @@ func init() {
 	core.Register(&core.Check{
 		ID:       "C07",
 		Category: "exploration",
-		Rule: "every program of the stated size over: set x / set y (each with its own literal), an observation printing x, y, z and their definedness (through Context.Scope().Get) and that of 'loop', 7 macro calls (parameter x; parameters y,x with an assignment to the parameter; missing / surplus arguments; variable arguments), for loops over 2 elements in 6 variable forms (value x/y/z, key/value pairs colliding with outer names) and if true/false, nested to depth 2, from 4 initial contexts (empty, x defined, x and y defined, x and y defined as null); each program ends with an observation. " +
+		Rule: "every program of the stated size over: set x / set y (each with its own literal), an observation printing x, y, z and their definedness (through Context.Scope().Get) and that of 'loop', 7 macro calls (parameter x; parameters y,x with an assignment to the parameter; missing / surplus arguments; variable arguments), for loops over 2 elements in 6 variable forms (value x/y/z, key/value pairs colliding with outer names) and 4 forms with an inline condition that rejects the last / the first / every element, and if true/false, nested to depth 2, from 4 initial contexts (empty, x defined, x and y defined, x and y defined as null); each program ends with an observation. " +
 			"Reference: exactly the statement (locals shadow and vanish, outer variables untouched unless assigned, top-level and in-branch set persists, set to an existing unshadowed outer variable updates it, first-set-in-loop does not survive). distinct = distinct program x context; non-trivial = more than the final observation",
 		Assumptions: []string{
 			"unspecified and skipped (counted): assignment to a currently shadowed name; reading, in a later iteration, a variable first set in an earlier iteration of the same loop (Twig keeps it, stick does not; the statement is silent)",
